@@ -135,6 +135,15 @@ def unary_ops(b, sp):
          lambda ev, x: w.meth(ev, x, "einsum", "abcd"[:nd] + "->" + "".join("abcd"[i] for i in cyc))),
     ]
 
+    def construct_inferred(ev, x):
+        """the constructor with the total charge omitted: documented to infer it from the stored sectors"""
+        kw = dict(indices=x.fields["_indices"], blocks=dict(x.fields["_blocks"]), symmetry=x.fields["_symmetry"])
+        if sp.fermionic:
+            kw.update(phases=dict(x.fields.get("_phases", {})), oddpos=sp.label)
+        return ev.apply(arr, [], kw, None)
+
+    ops.append(("V1", "constructor with the charge omitted", m("__init__"), construct_inferred))
+
     def fill(ev, x):
         w.meth(ev, x, "fill_missing_blocks")
         return x
@@ -182,6 +191,22 @@ def unary_ops(b, sp):
             z = w.meth(ev, y, "fuse", tuple(range(n2)))
             u = w.meth(ev, z, "unfuse", 0)
             return (y, z, u, w.meth(ev, z, "unfuse_all"))
+
+        def fu_twice_conj(ev, x, groups=groups, how="conj"):
+            """two levels of fusing, then conjugate / adjoint, then unfuse both levels"""
+            y = w.meth(ev, x, "fuse", *groups)
+            n2 = len(y.fields["_indices"])
+            if n2 < 2:
+                return (y,)
+            z = w.meth(ev, y, "fuse", tuple(range(n2)))
+            zc = w.meth(ev, z, how)
+            u1 = w.meth(ev, zc, "unfuse_all")
+            u2 = w.meth(ev, u1, "unfuse_all")
+            return (zc, u1, u2)
+
+        ops.append(("V3", f"fuse{gname}.fuse(all).conj.unfuse_all.unfuse_all", m("conj"), fu_twice_conj))
+        ops.append(("V3", f"fuse{gname}.fuse(all).dagger.unfuse_all.unfuse_all", m("dagger"),
+                    lambda ev, x, f_=fu_twice_conj: f_(ev, x, how="dagger")))
 
         def fu_conj(ev, x, groups=groups):
             y = w.meth(ev, w.meth(ev, x, "fuse", *groups), "conj")
@@ -391,8 +416,8 @@ def chains(b, sp, first_ops, second_for):
             b.run("V7", f"{n1} ; {n2}", a2, sp, prog2, refusal_ok=True)
 
 
-CHAIN_SKIP_FIRST = (" mode=", "inplace", ".unfuse", "multiply_diagonal", "one session", ".fuse(all)", ".reshape", ".conj.", ".transpose.", "squeeze", "odd charge", "copy")
-CHAIN_SKIP_SECOND = (" mode=", "inplace", "phase_sector", "multiply_diagonal", "one session", ".fuse(all)", ".reshape", ".conj.", ".transpose.", "(each)", "odd charge", "copy")
+CHAIN_SKIP_FIRST = (" mode=", "constructor", "inplace", ".unfuse", "multiply_diagonal", "one session", ".fuse(all)", ".reshape", ".conj.", ".transpose.", "squeeze", "odd charge", "copy")
+CHAIN_SKIP_SECOND = (" mode=", "constructor", "inplace", "phase_sector", "multiply_diagonal", "one session", ".fuse(all)", ".reshape", ".conj.", ".transpose.", "(each)", "odd charge", "copy")
 
 
 def _job(state, job):
